@@ -274,5 +274,48 @@ CHECKS["C09"] = {
     ],
 }
 
+CHECKS["C14"] = {
+    "level": "exploration",
+    "claim": ("Real turn.Client and real turn.Server (with pion's static relay address generator) in one virtual-time bubble for 0.5-3 h "
+              "(thorough: up to 12 h) of protocol time per case: generated server lifetimes/timeouts from the region compatible with the "
+              "client's refresh intervals, generated client permission refresh interval and RTO, 1-4 peers, traffic patterns with idle "
+              "gaps up to 2 h, and a fault script that makes the first 0..6 round trips of every STUN transaction fail (request or "
+              "response lost), duplicates and delays control messages. At every probe instant one datagram each way per peer must arrive "
+              "intact and exactly once, AllocationCount stays 1; after Close of the relayed socket AllocationCount is 0 and the relay socket "
+              "closed; the bubble drains after closing client and server. Also runs Allocate with generated time-windowed credentials "
+              "(C17 end-to-end)."),
+    "level_note": "Trusted: simnet, testing/synctest. The client's binding refresh/check intervals cannot be configured from outside the package and stay at their defaults (5 min / 30 s). 'Indefinitely' is explored as hours per case.",
+    "technique": "property-based testing under virtual time with injected faults: rapid-generated configurations, traffic patterns and per-transaction loss schedules for a real client/server pair; delivery oracle on periodic probes",
+    "rule": "non-trivial = protocol duration > 61 min (nonce horizon) or an idle gap > 10 min, and at least one transaction with lost round trips; distinct by hash of the case",
+    "assumptions": [],
+    "stages": [
+        {"name": "session", "pkg": "cliworld", "run": "^TestC14$",
+         "quick": {"shards": 4, "checks": 80, "timeout_s": 500},
+         "thorough": {"shards": 16, "checks": 1500, "timeout_s": 3000}},
+    ],
+}
+
+CHECKS["C13"] = {
+    "level": "exploration",
+    "claim": ("Real turn.Client and its relayed UDPConn (and TCPAllocation for the ConnectionAttempt part) against a scripted TURN server that "
+              "answers Allocate/Refresh correctly and reacts to CreatePermission / ChannelBind per generated script (success, 400, 403, 438 "
+              "with fresh nonce, silence, delayed success); generated sequences of WriteTo (1-6 peers incl. same IP other port, 1-4 concurrent "
+              "writers), inbound Data indications / ChannelData on bound and unknown channels in bursts of 1..3000 with and without a reader, "
+              "read deadlines, sleeps across the refresh intervals, Close. The scripted server checks, in arrival order, that no Send "
+              "indication precedes a CreatePermission success for that IP, no ChannelData precedes a ChannelBind success for exactly that "
+              "(number, peer), numbers are in range and one per peer; payloads on the wire equal the bytes given to WriteTo; ReadFrom returns "
+              "a subsequence (complete while the queue bound is not exceeded) of what was relayed with the right peer address; deadlines and "
+              "Close unblock readers; the inbound path never stays blocked (nothing left in front of HandleInbound at quiescence)."),
+    "level_note": "Trusted: simnet, the scripted server (harness/cliworld/c13_test.go), testing/synctest. Channel-number uniqueness is explored for up to 6 peers per case here (the 16384-peer sweep of the quantifier is not run).",
+    "technique": "stateful property-based testing under virtual time: rapid-generated application call sequences and scripted server reactions, ordered wire-log oracle at the scripted server",
+    "rule": "non-trivial = >= 2 peers, at least one non-success server reaction, data written both before and after a binding was confirmed (UDP cases); every ConnectionAttempt burst case (TCP cases); distinct by hash",
+    "assumptions": [],
+    "stages": [
+        {"name": "relayed-socket", "pkg": "cliworld", "run": "^TestC13$",
+         "quick": {"shards": 4, "checks": 700, "timeout_s": 500},
+         "thorough": {"shards": 16, "checks": 8000, "timeout_s": 3000}},
+    ],
+}
+
 _NOT_BUILT = "check not built yet in this round (planned, see DESIGN.md section 4)"
 PENDING = {("C%02d" % i): _NOT_BUILT for i in range(1, 21)}
